@@ -1,6 +1,6 @@
 #!/bin/sh
-# usage: tools/allmutants.sh <dir-with-*/*/patch.diff> [props...]  -> one line per patch (8 in parallel)
+# usage: tools/allmutants.sh <dir-with-*/*/patch.diff> [props...]  -> one line per patch (8 in parallel, or $MUT_PAR)
 D="$1"; shift
 T="$(dirname "$0")"
 export MUT_PROPS="$*"
-ls "$D"/*/*/patch.diff | xargs -P 8 -I{} sh -c 'p="{}"; id="$(echo "$p" | sed -E "s|.*/([A-Za-z0-9]+)/([a-z0-9]+)/patch.diff|\1\2|")"; res="$('"$T"'/mutant.sh "$p" $MUT_PROPS 2>&1 | grep -E "CAUGHT-BY|DOES NOT APPLY")"; echo "$id $res"' | sort
+ls "$D"/*/*/patch.diff | xargs -P ${MUT_PAR:-8} -I{} sh -c 'p="{}"; id="$(echo "$p" | sed -E "s|.*/([A-Za-z0-9]+)/([a-z0-9]+)/patch.diff|\1\2|")"; res="$('"$T"'/mutant.sh "$p" $MUT_PROPS 2>&1 | grep -E "CAUGHT-BY|DOES NOT APPLY")"; echo "$id $res"' | sort
